@@ -143,6 +143,13 @@ def build(t):
         return ops.Transpose(ch[0])
     if k == "Adjoint":
         return ops.Adjoint(ch[0])
+    if k in ("GramT", "GramH", "GramHr"):
+        A = ch[0]  # ONE object on both sides: the inference rule tests identity
+        if k == "GramT":
+            return ops.Product(ops.Transpose(A), A)
+        if k == "GramH":
+            return ops.Product(ops.Adjoint(A), A)
+        return ops.Product(A, ops.Adjoint(A))
     if k == "Sliced":
         return ops.Sliced(ch[0], slices=(index_obj(p["rf"]), index_obj(p["cf"])))
     if k == "Concatenated":
